@@ -2,6 +2,7 @@ package main
 
 import (
 	"fmt"
+	"math/big"
 	"go/constant"
 	"go/types"
 	"sort"
@@ -168,13 +169,33 @@ func (e *Exec) builtin(s *State, site ssa.Instruction, cc *ssa.CallCommon, res s
 		st := cells(et)
 		n := c.I("(+ %s %s)", sl[2], ad[2])
 		inplace := c.B("(<= %s %s)", n, sl[3])
+		// appended elements: a variadic call passes a slice of a small array of
+		// statically known length; those are written cell by cell (no quantifier)
+		staticN := -1
+		if sx, ok := cc.Args[1].(*ssa.Slice); ok && sx.Low == nil && sx.High == nil {
+			if al, ok := sx.X.(*ssa.Alloc); ok {
+				if at, ok := al.Type().(*types.Pointer).Elem().Underlying().(*types.Array); ok && at.Len() <= 4 {
+					staticN = int(at.Len())
+				}
+			}
+		}
+		var elems []Val
+		for i := 0; i < staticN; i++ {
+			elems = append(elems, e.load(s, ad[0], c.I("(+ %s %d)", ad[1], i*st), et))
+		}
 		// in-place branch
 		s1 := s.clone()
 		s1.pc = c.and(s.pc, inplace)
 		dbase := c.I("(+ %s (* %s %d))", sl[1], sl[2], st)
 		ncells := c.I("(* %s %d)", ad[2], st)
 		e.frameCheck(s1, site, sl[0], dbase, c.I("(+ %s %s)", dbase, ncells))
-		e.copyRange(s1, et, sl[0], dbase, ad[0], ad[1], ncells)
+		if staticN >= 0 {
+			for i, ev := range elems {
+				e.store(s1, nil, sl[0], c.I("(+ %s %d)", dbase, i*st), et, ev)
+			}
+		} else {
+			e.copyRange(s1, et, sl[0], dbase, ad[0], ad[1], ncells)
+		}
 		r1 := Val{sl[0], sl[1], n, sl[3]}
 		// growth branch: fresh object, capacity unconstrained above the new length
 		s2 := s.clone()
@@ -182,8 +203,15 @@ func (e *Exec) builtin(s *State, site ssa.Instruction, cc *ssa.CallCommon, res s
 		nobj := e.alloc(s2, et)
 		ncap := c.fresh("Int", "newcap")
 		c.assume("true", c.B("(and (>= %s %s) (<= %s %s) (< 0 %s))", ncap, n, ncap, maxLen, ncap))
-		e.copyRange(s2, et, nobj, "0", sl[0], sl[1], c.I("(* %s %d)", sl[2], st))
-		e.copyRange(s2, et, nobj, c.I("(* %s %d)", sl[2], st), ad[0], ad[1], ncells)
+		oldCells := c.I("(* %s %d)", sl[2], st)
+		e.copyRange(s2, et, nobj, "0", sl[0], sl[1], oldCells)
+		if staticN >= 0 {
+			for i, ev := range elems {
+				e.store(s2, nil, nobj, c.I("(+ %s %d)", oldCells, i*st), et, ev)
+			}
+		} else {
+			e.copyRange(s2, et, nobj, oldCells, ad[0], ad[1], ncells)
+		}
 		r2 := Val{nobj, "0", n, ncap}
 		m := e.merge([]edge{{cond: "true", st: s1}, {cond: "true", st: s2}})
 		m.pc = s.pc
@@ -411,15 +439,15 @@ func (e *Exec) applyContract(s *State, site ssa.Instruction, calleeName string, 
 	sort.Strings(ks)
 	for _, k := range ks {
 		hp := c.fresh("HP", "Hcallpre"+k)
-		c.lines = append(c.lines, fmt.Sprintf("(assert (= %s %s))", hp, s.heaps[k]))
+		c.emit(fmt.Sprintf("(assert (= %s %s))", hp, s.heaps[k]), true)
 		nh := c.fresh("HP", "Hcall"+k)
 		s.heaps[k] = nh
 		var inf []string
 		for _, f := range qlocs {
 			inf = append(inf, fmt.Sprintf("(and (= o %s) (<= %s x) (< x %s))", f.obj, f.lo, f.hi))
 		}
-		c.lines = append(c.lines, fmt.Sprintf("(assert (forall ((o Int) (x Int)) (! (=> (not (or %s false)) (= (select (select %s o) x) (select (select %s o) x))) :pattern ((select (select %s o) x)))))",
-			strings.Join(inf, " "), nh, hp, nh))
+		c.emit(fmt.Sprintf("(assert (forall ((o Int) (x Int)) (! (=> (not (or %s false)) (= (select (select %s o) x) (select (select %s o) x))) :pattern ((select (select %s o) x)))))",
+			strings.Join(inf, " "), nh, hp, nh), true)
 	}
 	var rv Val
 	if results.Len() > 0 {
@@ -587,6 +615,8 @@ func (e *Exec) inline(s *State, site ssa.Instruction, callee *ssa.Function, args
 	if res != nil {
 		s.regs[res] = rs
 	}
+	// back in the caller: later lines belong to a fresh visit that follows everything the callee did
+	e.enter(s)
 }
 
 // ---- the CFG driver ----
@@ -669,10 +699,34 @@ func (e *Exec) run(entry *State, args Val) (Val, *State) {
 		if len(ins) == 0 {
 			continue
 		}
+		// a block that only returns is executed once per incoming edge: the
+		// postconditions are then checked per path instead of on a merged state
+		if _, isRet := b.Instrs[len(b.Instrs)-1].(*ssa.Return); isRet && len(ins) > 1 && !isLoopHeader(b) && !hasPhi(b) && simpleBlock(b) {
+			for _, ed := range ins {
+				s := e.merge([]edge{ed})
+				if s.pc == "false" {
+					continue
+				}
+				e.enter(s)
+				for _, in := range b.Instrs {
+					if x, ok := in.(*ssa.Return); ok {
+						var vals Val
+						for _, r := range x.Results {
+							vals = append(vals, e.val(s, r)...)
+						}
+						e.rets = append(e.rets, retPoint{st: s.clone(), vals: vals, pos: x.Pos(), blk: b.Index})
+					} else {
+						e.step(s, in)
+					}
+				}
+			}
+			continue
+		}
 		s := e.merge(ins)
 		if s.pc == "false" {
 			continue
 		}
+		e.enter(s)
 		if isLoopHeader(b) {
 			ord := e.loopOrd[b]
 			ls := e.loopSpec(b)
@@ -886,4 +940,47 @@ func (e *Exec) obligeClause(kind, label string, cl *Clause, pc string, env *Env)
 		}
 		e.c.oblige(o, pc, env.evalBool(part))
 	}
+}
+
+func hasPhi(b *ssa.BasicBlock) bool {
+	if len(b.Instrs) == 0 {
+		return false
+	}
+	_, ok := b.Instrs[0].(*ssa.Phi)
+	return ok
+}
+
+// simpleBlock: only loads, defers and the return (no calls, no stores): cheap to duplicate.
+func simpleBlock(b *ssa.BasicBlock) bool {
+	for _, in := range b.Instrs {
+		switch x := in.(type) {
+		case *ssa.UnOp, *ssa.Return, *ssa.DebugRef, *ssa.Extract, *ssa.FieldAddr, *ssa.ChangeType:
+		case *ssa.Store:
+			if a, ok := x.Addr.(*ssa.Alloc); !ok || !isScalarLocal(a) {
+				return false
+			}
+		case *ssa.RunDefers:
+		case *ssa.Call:
+			_ = x
+			return false
+		default:
+			return false
+		}
+	}
+	return true
+}
+
+// enter opens a new block visit for state s: lines emitted from now on are
+// scoped to it, and s (with every state derived from it) has it in its history.
+func (e *Exec) enter(s *State) {
+	c := e.c
+	v := c.newVisit()
+	h := new(big.Int)
+	if s.hist != nil {
+		h.Set(s.hist)
+	}
+	h.SetBit(h, int(v), 1)
+	s.hist = h
+	c.cur = v
+	c.curHist = h
 }
